@@ -36,8 +36,21 @@ impl Graph {
     #[verifier::external_body] pub fn dst_vertex_id(&self, e: &EdgeId) -> (r: Result<VertexId, NetworkError>) ensures r matches Ok(v) ==> v == g_dst(self, *e) { unimplemented!() }
     #[verifier::external_body] pub fn src_vertex_id(&self, e: &EdgeId) -> (r: Result<VertexId, NetworkError>) ensures r matches Ok(v) ==> v == g_src(self, *e) { unimplemented!() }
     #[verifier::external_body] pub fn n_vertices(&self) -> (r: usize) ensures r == g_n(self) { unimplemented!() }
+    #[verifier::external_body] pub fn out_edges_iter<'a>(&'a self, src: &VertexId) -> (r: GEdgeIter<'a>) ensures r.pos() == 0, r.seq() == g_out(self, *src) { unimplemented!() }
+    #[verifier::external_body] pub fn in_edges_iter<'a>(&'a self, dst: &VertexId) -> (r: GEdgeIter<'a>) ensures r.pos() == 0, r.seq() == g_in(self, *dst) { unimplemented!() }
     // (0..n_vertices).map(VertexId), boxed                                                                          [assumed]
     #[verifier::external_body] pub fn vertex_ids(&self) -> (r: VidIter) ensures r.pos() == 0, r.n() == g_n(self) { unimplemented!() }
+}
+#[verifier::external_body] pub struct GEdgeIter<'a> { _p: core::marker::PhantomData<&'a u8> }
+impl<'a> GEdgeIter<'a> {
+    pub uninterp spec fn seq(&self) -> Seq<EdgeId>;
+    pub uninterp spec fn pos(&self) -> int;
+    #[verifier::external_body]
+    pub fn next(&mut self) -> (r: Option<&'a EdgeId>)
+        ensures final(self).seq() == old(self).seq(), 0 <= old(self).pos() <= old(self).seq().len(),
+                old(self).pos() < old(self).seq().len() ==> r is Some && *r->Some_0 == old(self).seq()[old(self).pos()] && final(self).pos() == old(self).pos() + 1,
+                old(self).pos() >= old(self).seq().len() ==> r is None && final(self).pos() == old(self).pos(),
+    { unimplemented!() }
 }
 #[verifier::external_body] pub struct VidIter { _p: u8 }
 impl VidIter {
